@@ -142,7 +142,11 @@ theorem T_intersectListList_eq (a b : List Val) :
   simp only []
   rw [forRange_filter (p := fun v1 => b.any (fun v2 => v1 == v2))]
   · simp only [List.nil_append, intersectListModel]
-    exact listList_end _ _ _
+    have hend := listList_end (List.filter (fun v1 => b.any fun v2 => v1 == v2) a) a.length b.length
+    have hemp : ∀ c : List Val, (Int.ofNat c.length == (0 : Int)) = c.isEmpty := by
+      intro c; cases c <;> simp <;> omega
+    rw [hemp] at hend
+    exact hend
   · intro v1 ret
     rw [forRange_first (q := fun v2 => v1 == v2) (f := fun r => r ++ [v1])]
     intro v2 s; rfl
@@ -214,7 +218,7 @@ theorem intersectMapMap_step (fuel : Nat) (a b : Fields) (hs : Fields.SortedKeys
     cases hg : fget b k with
     | none => simp
     | some v2 =>
-      simp only [hi, beq_null_eq_isNull, Bool.not_true]
+      simp only [hi, beq_null_eq_isNull]
       by_cases h1 : (v.isNull && v2.isNull) = true
       · simp [h1]
       · by_cases h2 : (intersect v v2).isNull = true <;> simp [h1, h2]
